@@ -30,6 +30,8 @@ Record srv := {
 Inductive label :=
 | LStart                     (* await server.serve_forever() *)
 | LConnect                   (* a client connects and performs the handshake *)
+| LConnectBad                (* a client connects and sends garbage instead of the handshake, or
+                                hangs up at once: the session fails, its connection is closed *)
 | LSend (c : nat)            (* client c sends one command line *)
 | LLeave (c : nat)           (* client c disconnects (clean close, 'exit' command or EOF) *)
 | LStop.                     (* the serving task is cancelled *)
@@ -73,6 +75,15 @@ Definition step (s : srv) (l : label) : srv :=
       if v_listening s
       then set_conns s (v_conns s ++ [{| k_client_open := true; k_session := true;
                                         k_replies := 1 |}])
+      else {| v_kind := v_kind s; v_started := v_started s; v_listening := v_listening s;
+              v_stopreq := v_stopreq s; v_done := v_done s; v_sockfile := v_sockfile s;
+              v_conns := v_conns s; v_refused := S (v_refused s) |}
+  | LConnectBad =>
+      (* client_handshake raises; the connected-callback's finally closes the connection; the
+         client is not answered.  It counts as a connection that came and went. *)
+      if v_listening s
+      then set_conns s (v_conns s ++ [{| k_client_open := false; k_session := false;
+                                        k_replies := 0 |}])
       else {| v_kind := v_kind s; v_started := v_started s; v_listening := v_listening s;
               v_stopreq := v_stopreq s; v_done := v_done s; v_sockfile := v_sockfile s;
               v_conns := v_conns s; v_refused := S (v_refused s) |}
